@@ -1,20 +1,25 @@
 (* C01 - property theorems only.  Each is closed by [exact lemma]; Print Assumptions beneath.
 
-   Objects (Model/C01.v): [loader strats rejhdr cfg pairs] is DemultiplexingStrategyLoader.demultiplex of the
-   repaired tree (c_legacy = false), parametric in the strategies (functions pair -> Accept recs | Reject reason |
-   Raise kind) and in the reject-header builder rejhdr; [fastq_iter files] is FastqIterator on the line lists of the
-   mate files.  The result carries the trace of write() calls, one [event] per record and file, labelled with the
+   Objects (Model/C01.v): [loader sh strats rejhdr cfg pairs] is DemultiplexingStrategyLoader.demultiplex, defined from
+   the SHAPE [sh] of its loop (Lib/C01Shape.v: sink / handle guard / reaches-the-yield-increment of the accept,
+   NonMultiplexable and generic-exception arms, increment-before-write, position of the processedReadPairs increment
+   and of the strategy loop relative to the maxReadPairs test), parametric in the strategies (functions pair -> Accept
+   recs | Reject reason | Raise kind) and in the reject-header builder rejhdr; [fastq_iter files] is FastqIterator on
+   the line lists of the mate files.  Every loader theorem is stated FOR EVERY WELL-FORMED SHAPE (wf_shape sh = true);
+   the shape regenerated from the current source (Gen/GenLoader.v, tools/c01.py LoaderTranslator) is shown well-formed by
+   computation (C01_generated_shape_wf), and each conjunct of wf_shape is shown necessary (C01_shape_fields_needed).  The result carries the trace of write() calls, one [event] per record and file, labelled with the
    input pair index and the strategy index that caused it; the bytes of an output file are the concatenation of
    the e_text of its events ([file_events] / [file_bytes]).
    [res_crashed = false]: the call returned (no exception left the loop).
-   Vocabulary (Proofs/C01*.v): consumed cfg pairs = the pairs the loop body ran on; step_events = what the step
+   Vocabulary (Proofs/C01*.v): consumed sh cfg pairs = the pairs the loop body ran on; step_events = what the step
    of one pair under one strategy writes; lab_eqb p j e = event e is labelled (p, j); count_at tr t p j m = number
    of events labelled (p, j) in mate file m of the target (t = true) / reject (t = false) sink; step_ok = the
    accepted record list covers the target handle's files and each of those records can be serialised (no partial
    write), the input tuple covers the reject handle's files; is_accept = accepted and written (counted as a yield). *)
 From Coq Require Import ZArith List Bool Sorted.
 Import ListNotations.
-From SCMO Require Import Lib.Val Model.C01 Proofs.C01 Proofs.C01_b Proofs.C01_c Proofs.C01_ex.
+From SCMO Require Import Lib.Val Lib.C01Shape Gen.GenLoader Model.C01 Model.C01Spec Model.C01x
+  Proofs.C01 Proofs.C01_b Proofs.C01_c Proofs.C01_ex Proofs.C01Spec Proofs.C01Bridge Proofs.C01_gen.
 Open Scope Z_scope.
 
 (* ---- reader: stops at the FIRST index where any mate file has no (non-empty) header; every tuple before it is
@@ -33,17 +38,17 @@ Proof. exact stop_rule_unique. Qed.
 Print Assumptions C01_stop_rule_first.
 
 (* ---- the loop leaves with an exception exactly when a reject record of a consumed pair cannot be formatted *)
-Theorem C01_crash_iff : forall strats rejhdr cfg, c_legacy cfg = false -> forall pairs,
-  res_crashed (loader strats rejhdr cfg pairs) = existsb (pair_crash strats rejhdr cfg) (consumed cfg pairs).
+Theorem C01_crash_iff : forall sh strats rejhdr cfg, wf_shape sh = true -> forall pairs,
+  res_crashed (loader sh strats rejhdr cfg pairs) = existsb (pair_crash strats rejhdr cfg) (consumed sh cfg pairs).
 Proof. exact loader_crash_iff. Qed.
 Print Assumptions C01_crash_iff.
 
 (* ---- PARTITION.  In every run that returns, the writes caused by input pair p under strategy j are exactly the
    writes of that one step; pairs beyond the stop and labels that do not exist own nothing *)
-Theorem C01_partition_events : forall strats rejhdr cfg, c_legacy cfg = false -> forall pairs p j,
-  res_crashed (loader strats rejhdr cfg pairs) = false ->
-  filter (lab_eqb p j) (res_trace (loader strats rejhdr cfg pairs)) =
-  if (p <? length (consumed cfg pairs))%nat && (j <? length strats)%nat
+Theorem C01_partition_events : forall sh strats rejhdr cfg, wf_shape sh = true -> forall pairs p j,
+  res_crashed (loader sh strats rejhdr cfg pairs) = false ->
+  filter (lab_eqb p j) (res_trace (loader sh strats rejhdr cfg pairs)) =
+  if (p <? length (consumed sh cfg pairs))%nat && (j <? length strats)%nat
   then step_events rejhdr cfg p (nth p pairs []) j (nth j strats dflt) else [].
 Proof. exact partition_events. Qed.
 Print Assumptions C01_partition_events.
@@ -53,12 +58,12 @@ Print Assumptions C01_partition_events.
    with a rejects handle one record per mate file whose text is header / ORIGINAL bases / plus / ORIGINAL qualities
    and whose header contains ;RR:<reason>, to the rejects output only; without a rejects handle nothing.
    (rejhdr contract: a formatted reject header contains the reason tag.) *)
-Theorem C01_partition : forall strats rejhdr cfg, c_legacy cfg = false ->
+Theorem C01_partition : forall sh strats rejhdr cfg, wf_shape sh = true ->
   (forall r reason h, rejhdr r reason = HOk h -> contains (tagRR ++ reason) h) ->
   forall pairs p j,
-  res_crashed (loader strats rejhdr cfg pairs) = false ->
-  (p < length (consumed cfg pairs))%nat -> (j < length strats)%nat ->
-  let evs := filter (lab_eqb p j) (res_trace (loader strats rejhdr cfg pairs)) in
+  res_crashed (loader sh strats rejhdr cfg pairs) = false ->
+  (p < length (consumed sh cfg pairs))%nat -> (j < length strats)%nat ->
+  let evs := filter (lab_eqb p j) (res_trace (loader sh strats rejhdr cfg pairs)) in
   match nth j strats dflt (nth p pairs []) with
   | Accept recs => forallb a_ok (touched cfg recs) = true -> evs = write_target cfg p j recs
   | Reject why | Raise why =>
@@ -72,86 +77,87 @@ Print Assumptions C01_partition.
 (* ... as a count per mate file: with a rejects handle, target count + reject count = 1 (never both, never
    neither); the record is in the target sink iff the strategy accepted.  Without a rejects handle the reject
    count is 0 and the target count is 1 iff accepted. *)
-Theorem C01_exactly_once : forall strats rejhdr cfg, c_legacy cfg = false -> forall pairs (t : bool) p j m,
-  res_crashed (loader strats rejhdr cfg pairs) = false ->
-  (p < length (consumed cfg pairs))%nat -> (j < length strats)%nat ->
+Theorem C01_exactly_once : forall sh strats rejhdr cfg, wf_shape sh = true -> forall pairs (t : bool) p j m,
+  res_crashed (loader sh strats rejhdr cfg pairs) = false ->
+  (p < length (consumed sh cfg pairs))%nat -> (j < length strats)%nat ->
   step_ok cfg (nth p pairs []) (nth j strats dflt) ->
   (m < (if t then target_width cfg else c_nh cfg))%nat ->
-  count_at (res_trace (loader strats rejhdr cfg pairs)) t p j m =
+  count_at (res_trace (loader sh strats rejhdr cfg pairs)) t p j m =
   if Bool.eqb t (is_accept cfg (nth j strats dflt (nth p pairs []))) && (t || c_rejects cfg) then 1%nat else 0%nat.
 Proof. exact partition_count. Qed.
 Print Assumptions C01_exactly_once.
 
-Theorem C01_nothing_beyond : forall strats rejhdr cfg, c_legacy cfg = false -> forall pairs p j,
-  res_crashed (loader strats rejhdr cfg pairs) = false ->
-  (length (consumed cfg pairs) <= p)%nat \/ (length strats <= j)%nat ->
-  filter (lab_eqb p j) (res_trace (loader strats rejhdr cfg pairs)) = [].
+Theorem C01_nothing_beyond : forall sh strats rejhdr cfg, wf_shape sh = true -> forall pairs p j,
+  res_crashed (loader sh strats rejhdr cfg pairs) = false ->
+  (length (consumed sh cfg pairs) <= p)%nat \/ (length strats <= j)%nat ->
+  filter (lab_eqb p j) (res_trace (loader sh strats rejhdr cfg pairs)) = [].
 Proof. exact nothing_beyond. Qed.
 Print Assumptions C01_nothing_beyond.
 
 (* ---- COUNTERS.  processedReadPairs = number of consumed pairs = min(n, max(1, maxReadPairs)) (n for None; the
-   test runs after the first pair, so a limit <= 0 still consumes one); the consumed pairs are a prefix *)
-Theorem C01_processed : forall strats rejhdr cfg, c_legacy cfg = false -> forall pairs,
-  res_crashed (loader strats rejhdr cfg pairs) = false ->
-  res_processed (loader strats rejhdr cfg pairs) = Z.of_nat (length (consumed cfg pairs)) /\
-  res_processed (loader strats rejhdr cfg pairs) =
+   test runs after the first pair, so a limit <= 0 still consumes one; with the test first - the other well-formed
+   order, min_consumed sh = 0 - it consumes none); the consumed pairs are a prefix *)
+Theorem C01_processed : forall sh strats rejhdr cfg, wf_shape sh = true -> forall pairs,
+  res_crashed (loader sh strats rejhdr cfg pairs) = false ->
+  res_processed (loader sh strats rejhdr cfg pairs) = Z.of_nat (length (consumed sh cfg pairs)) /\
+  res_processed (loader sh strats rejhdr cfg pairs) =
     match pairs, c_max cfg with
     | [], _ => 0
     | _, None => Z.of_nat (length pairs)
-    | _, Some m => Z.min (Z.of_nat (length pairs)) (Z.max 1 m)
+    | _, Some m => Z.min (Z.of_nat (length pairs)) (Z.max (min_consumed sh) m)
     end /\
-  exists k, consumed cfg pairs = firstn k pairs.
+  exists k, consumed sh cfg pairs = firstn k pairs.
 Proof. exact processed_spec. Qed.
 Print Assumptions C01_processed.
 
 (* strategyYields[j] = number of consumed pairs strategy j accepted -- no hypothesis about raising strategies *)
-Theorem C01_counters : forall strats rejhdr cfg, c_legacy cfg = false -> forall pairs j,
-  res_crashed (loader strats rejhdr cfg pairs) = false -> (j < length strats)%nat ->
-  nth j (res_yields (loader strats rejhdr cfg pairs)) 0 = Z.of_nat (length (accepted_by strats cfg j (consumed cfg pairs))).
+Theorem C01_counters : forall sh strats rejhdr cfg, wf_shape sh = true -> forall pairs j,
+  res_crashed (loader sh strats rejhdr cfg pairs) = false -> (j < length strats)%nat ->
+  nth j (res_yields (loader sh strats rejhdr cfg pairs)) 0 = Z.of_nat (length (accepted_by strats cfg j (consumed sh cfg pairs))).
 Proof. exact yields_count. Qed.
 Print Assumptions C01_counters.
 
 (* ... = the number of records strategy j put into the R1 file(s) of the demultiplexed output *)
-Theorem C01_counters_written : forall strats rejhdr cfg, c_legacy cfg = false -> forall pairs j,
-  res_crashed (loader strats rejhdr cfg pairs) = false -> (j < length strats)%nat -> (0 < target_width cfg)%nat ->
-  (forall r, In r (consumed cfg pairs) -> step_ok cfg r (nth j strats dflt)) ->
-  nth j (res_yields (loader strats rejhdr cfg pairs)) 0 =
-  Z.of_nat (length (filter (written_by j) (res_trace (loader strats rejhdr cfg pairs)))).
+Theorem C01_counters_written : forall sh strats rejhdr cfg, wf_shape sh = true -> forall pairs j,
+  res_crashed (loader sh strats rejhdr cfg pairs) = false -> (j < length strats)%nat -> (0 < target_width cfg)%nat ->
+  (forall r, In r (consumed sh cfg pairs) -> step_ok cfg r (nth j strats dflt)) ->
+  nth j (res_yields (loader sh strats rejhdr cfg pairs)) 0 =
+  Z.of_nat (length (filter (written_by j) (res_trace (loader sh strats rejhdr cfg pairs)))).
 Proof. exact counters_written. Qed.
 Print Assumptions C01_counters_written.
 
 (* ---- ORDER: every output file lists its records in input order (pair index, then strategy order) *)
-Theorem C01_order : forall strats rejhdr cfg, c_legacy cfg = false -> forall pairs t cell m,
-  res_crashed (loader strats rejhdr cfg pairs) = false ->
-  StronglySorted ev_le (file_events (res_trace (loader strats rejhdr cfg pairs)) t cell m).
+Theorem C01_order : forall sh strats rejhdr cfg, wf_shape sh = true -> forall pairs t cell m,
+  res_crashed (loader sh strats rejhdr cfg pairs) = false ->
+  StronglySorted ev_le (file_events (res_trace (loader sh strats rejhdr cfg pairs)) t cell m).
 Proof. exact file_sorted. Qed.
 Print Assumptions C01_order.
 
 (* ---- MATE SYNC: the R1 and R2 files of a sink (joint mode: the two files; per-cell mode: the two files of every
    cell) hold the same sequence of (pair, strategy) labels: equal record counts, record k of both stems from the
    same input pair.  step_ok2 = step_ok + (per-cell mode) the mates of an accepted pair name the same cell. *)
-Theorem C01_mate_sync : forall strats rejhdr cfg, c_legacy cfg = false -> forall pairs t cell m1 m2,
-  res_crashed (loader strats rejhdr cfg pairs) = false ->
-  (forall r f, In r (consumed cfg pairs) -> In f strats -> step_ok2 cfg r f) ->
+Theorem C01_mate_sync : forall sh strats rejhdr cfg, wf_shape sh = true -> forall pairs t cell m1 m2,
+  res_crashed (loader sh strats rejhdr cfg pairs) = false ->
+  (forall r f, In r (consumed sh cfg pairs) -> In f strats -> step_ok2 cfg r f) ->
   (m1 < width cfg t)%nat -> (m2 < width cfg t)%nat ->
-  map lab (file_events (res_trace (loader strats rejhdr cfg pairs)) t cell m1) =
-  map lab (file_events (res_trace (loader strats rejhdr cfg pairs)) t cell m2).
+  map lab (file_events (res_trace (loader sh strats rejhdr cfg pairs)) t cell m1) =
+  map lab (file_events (res_trace (loader sh strats rejhdr cfg pairs)) t cell m2).
 Proof. exact mate_sync. Qed.
 Print Assumptions C01_mate_sync.
 
 (* ---- the log handle (log_handle=None is the API default, demux.py always passes one) is an input of the loader and no
    result depends on it; all theorems above are stated for every cfg, hence for both values *)
-Theorem C01_log_independent : forall strats rejhdr cfg b pairs,
-  loader strats rejhdr (set_log b cfg) pairs = loader strats rejhdr cfg pairs.
+Theorem C01_log_independent : forall sh strats rejhdr cfg b pairs,
+  loader sh strats rejhdr (set_log b cfg) pairs = loader sh strats rejhdr cfg pairs.
 Proof. exact log_independent. Qed.
 Print Assumptions C01_log_independent.
 
 (* ---- what was wrong (D1): with the generic-exception arm of the unrepaired loader a pair whose strategy raises is
    written nowhere although a rejects handle exists, and the yield counter exceeds the records written *)
 Theorem C01_legacy_generic_arm_refuted :
-  exists strats rejhdr cfg pairs,
-    c_legacy cfg = true /\ c_rejects cfg = true /\
-    let res := loader strats rejhdr cfg pairs in
+  exists sh strats rejhdr cfg pairs,
+    wf_shape sh = false /\ c_rejects cfg = true /\
+    let res := loader sh strats rejhdr cfg pairs in
     res_crashed res = false /\ res_processed res = 3 /\
     filter (lab_eqb 2 0) (res_trace res) = [] /\
     nth 0 (res_yields res) 0 = 2 /\
@@ -161,9 +167,9 @@ Print Assumptions C01_legacy_generic_arm_refuted.
 
 (* ---- the excluded case (D4): a reject record that cannot be formatted aborts the run; pairs are left unwritten *)
 Theorem C01_reject_crash_refuted :
-  exists strats rejhdr cfg pairs,
-    c_legacy cfg = false /\
-    let res := loader strats rejhdr cfg pairs in
+  exists sh strats rejhdr cfg pairs,
+    wf_shape sh = true /\
+    let res := loader sh strats rejhdr cfg pairs in
     res_crashed res = true /\ filter (lab_eqb 1 0) (res_trace res) = [] /\ filter (lab_eqb 2 0) (res_trace res) = [].
 Proof. exact reject_crash_example. Qed.
 Print Assumptions C01_reject_crash_refuted.
@@ -171,9 +177,9 @@ Print Assumptions C01_reject_crash_refuted.
 (* ---- the excluded case of step_ok: a partial write (R1 written, serialising R2 raises) puts the pair into BOTH outputs
    and R1/R2 out of step; the correspondence check reports any partial write of the real code as a violation *)
 Theorem C01_partial_write_refuted :
-  exists strats rejhdr cfg pairs,
-    c_legacy cfg = false /\ c_rejects cfg = true /\
-    let res := loader strats rejhdr cfg pairs in
+  exists sh strats rejhdr cfg pairs,
+    wf_shape sh = true /\ c_rejects cfg = true /\
+    let res := loader sh strats rejhdr cfg pairs in
     res_crashed res = false /\
     count_at (res_trace res) true 0 0 0 = 1%nat /\ count_at (res_trace res) false 0 0 0 = 1%nat /\
     length (file_events (res_trace res) true [] 0) = 1%nat /\ length (file_events (res_trace res) true [] 1) = 0%nat /\
@@ -181,9 +187,101 @@ Theorem C01_partial_write_refuted :
 Proof. exact partial_write_refuted. Qed.
 Print Assumptions C01_partial_write_refuted.
 
+(* ---- T: the shape of the loop regenerated from the current source is well-formed (by computation), so every theorem
+   above speaks about the loop as it stands; run_C01 (the extracted model the correspondence check runs) is that loader *)
+Theorem C01_generated_shape_wf : wf_shape loader_shape = true.
+Proof. exact generated_shape_wf. Qed.
+Print Assumptions C01_generated_shape_wf.
+
+Theorem C01_wf_shapes : forall sh, wf_shape sh = true <-> exists guard_target test_last, sh = good_shape guard_target test_last.
+Proof. exact wf_shapes. Qed.
+Print Assumptions C01_wf_shapes.
+
+(* ---- each conjunct of wf_shape is needed: one field changed and a run that breaks the property (reject arm without
+   handle guard: dies without a rejects handle / reject arm reaching the increment: rejected pair counted / reject arm
+   writing to the demultiplexed output / increment before the write: raising write counted / test between increment and
+   strategy loop: counted pair written nowhere / accepted records not written) *)
+Theorem C01_shape_fields_needed_refuted :
+  (let sh := set_reject (mkArm SReject false false) repaired_shape in
+   wf_shape sh = false /\
+   res_crashed (loader sh [ex_strat] ex_rejhdr (mkConfig None false false 2 false) ex_pairs) = true) /\
+  (let sh := set_reject (mkArm SReject true true) repaired_shape in
+   wf_shape sh = false /\
+   let res := loader sh [ex_strat] ex_rejhdr ex_cfg ex_pairs in
+   res_crashed res = false /\ res_yields res = [2] /\ length (filter (written_by 0) (res_trace res)) = 1%nat) /\
+  (let sh := set_reject (mkArm STarget true false) repaired_shape in
+   wf_shape sh = false /\
+   let res := loader sh [ex_strat] ex_rejhdr ex_cfg ex_pairs in
+   res_crashed res = false /\ count_at (res_trace res) true 1 0 0 = 1%nat /\ count_at (res_trace res) false 1 0 0 = 0%nat) /\
+  (let sh := mkShape (mkArm STarget true true) (mkArm SReject true false) (mkArm SReject true false) true true true in
+   wf_shape sh = false /\
+   let res := loader sh [ex_partial] ex_rejhdr ex_cfg [exA] in
+   res_crashed res = false /\ res_yields res = [1] /\ count_at (res_trace res) false 0 0 0 = 1%nat) /\
+  (let sh := mkShape (mkArm STarget true true) (mkArm SReject true false) (mkArm SReject true false) false true false in
+   wf_shape sh = false /\
+   let res := loader sh [ex_strat] ex_rejhdr (mkConfig (Some 2) true false 2 false) ex_pairs in
+   res_crashed res = false /\ res_processed res = 2 /\ filter (lab_eqb 1 0) (res_trace res) = []) /\
+  (let sh := mkShape (mkArm SNone true true) (mkArm SReject true false) (mkArm SReject true false) false true true in
+   wf_shape sh = false /\
+   let res := loader sh [ex_strat] ex_rejhdr ex_cfg ex_pairs in
+   res_crashed res = false /\ res_yields res = [1] /\ filter (lab_eqb 0 0) (res_trace res) = []).
+Proof. exact shape_fields_needed. Qed.
+Print Assumptions C01_shape_fields_needed_refuted.
+
+(* ---- the SPECIFICATION over observations of one run (input lines, records read, records of every output file with the
+   pair they stem from, returned and logged counters): spec_C01 (Proofs/C01Spec.v) restates the theorems above on
+   observables; specb_C01 (Model/C01Spec.v) is what the extracted binary evaluates on the implementation's real output
+   files (run_C01 mode 2).  The decision procedure decides the proposition: *)
+Theorem C01_specb_iff : forall sc ob, specb_C01 sc ob = true <-> spec_C01 sc ob.
+Proof. exact specb_iff. Qed.
+Print Assumptions C01_specb_iff.
+
+(* ---- the model's run, observed the way the implementation is observed (records of every output file attributed to
+   their input pair and strategy, returned counters), satisfies that specification - for every well-formed shape of the
+   loop, every strategy list and reject-header builder that keep their contracts (a formatted reject header carries
+   ;RR:reason; headers and reasons contain no newline), every library read from newline-free lines, in every run that
+   returns and in which no write is partial (step_ok2).  So the verdict of specb_C01 on the implementation's files is the
+   statement the theorems above establish for the model. *)
+Theorem C01_model_satisfies_spec : forall sh strats rejhdr cfg, wf_shape sh = true ->
+  (forall r reason h, rejhdr r reason = HOk h ->
+     contains (tagRR ++ reason) h /\ (read_nlfree r -> nl_free reason -> nl_free h)) ->
+  (forall r reason why, rejhdr r reason = HNonMux why -> nl_free why) ->
+  (forall f r why, In f strats -> f r = Reject why \/ f r = Raise why -> nl_free why) ->
+  forall files, files <> [] -> Forall (Forall nl_free) files -> (0 < c_nh cfg)%nat ->
+  let pairs := fastq_iter files in
+  let res := demultiplex sh strats rejhdr cfg files in
+  res_crashed res = false ->
+  (forall r f, In r (consumed sh cfg pairs) -> In f strats -> step_ok2 cfg r f) ->
+  spec_C01 (model_sconf strats cfg (length files)) (model_obs files res).
+Proof. exact model_satisfies_spec. Qed.
+Print Assumptions C01_model_satisfies_spec.
+
+(* non-vacuity of C01_model_satisfies_spec and C01_specb_iff: a library of three pairs in two mate files (accepted /
+   rejected / the strategy raises) satisfies every hypothesis; the specification holds and the decision procedure says so *)
+Example C01_example_bridge :
+  let res := demultiplex repaired_shape [bx_strat] bx_rejhdr bx_cfg bx_files in
+  res_crashed res = false /\ res_processed res = 3 /\ res_yields res = [1] /\
+  spec_C01 (model_sconf [bx_strat] bx_cfg (length bx_files)) (model_obs bx_files res) /\
+  specb_C01 (model_sconf [bx_strat] bx_cfg (length bx_files)) (model_obs bx_files res) = true.
+Proof. exact bx_bridge. Qed.
+Print Assumptions C01_example_bridge.
+
+(* the decision procedure is not constantly true: the same observation with the yield counter off by one, or with the
+   rejected pair missing from the rejects, is refused *)
+Example C01_example_specb_rejects :
+  let res := demultiplex repaired_shape [bx_strat] bx_rejhdr bx_cfg bx_files in
+  let sc := model_sconf [bx_strat] bx_cfg (length bx_files) in
+  let ob := model_obs bx_files res in
+  specb_C01 sc (mkObs (ob_in ob) (ob_pairs ob) (ob_out ob) (ob_processed ob) [2] None) = false /\
+  specb_C01 sc (mkObs (ob_in ob) (ob_pairs ob) (filter (fun f => f_target f) (ob_out ob)) (ob_processed ob) (ob_yields ob) None) = false /\
+  specb_C01 sc (mkObs (ob_in ob) (ob_pairs ob) (ob_out ob ++ ob_out ob) (ob_processed ob) (ob_yields ob) None) = false.
+Proof. exact bx_specb_rejects. Qed.
+Print Assumptions C01_example_specb_rejects.
+
 (* ---- non-vacuity: a run over accept / reject / raise satisfying every hypothesis above *)
 Example C01_example_run :
-  let res := loader [ex_strat] ex_rejhdr (ex_cfg false) ex_pairs in
+  let res := loader repaired_shape [ex_strat] ex_rejhdr ex_cfg ex_pairs in
+  wf_shape repaired_shape = true /\
   res_crashed res = false /\ res_processed res = 3 /\ res_yields res = [1]
   /\ map lab (file_events (res_trace res) true [] 0) = [(0, 0)]%nat
   /\ map lab (file_events (res_trace res) true [] 1) = [(0, 0)]%nat
@@ -191,9 +289,20 @@ Example C01_example_run :
   /\ map lab (file_events (res_trace res) false [] 1) = [(1, 0); (2, 0)]%nat
   /\ file_bytes (res_trace res) false [] 0 =
        [64;98;59;82;82;58;98;99;10; 67;67;10; 43;10; 73;73;10;   64;99;59;82;82;58;73;69;10; 71;10; 43;10; 73;10]
-  /\ (forall r f, In r (consumed (ex_cfg false) ex_pairs) -> In f [ex_strat] -> step_ok2 (ex_cfg false) r f).
+  /\ (forall r f, In r (consumed repaired_shape ex_cfg ex_pairs) -> In f [ex_strat] -> step_ok2 ex_cfg r f).
 Proof. exact ex_run. Qed.
 Print Assumptions C01_example_run.
+
+(* the other well-formed order of the loop body (maxReadPairs test first) *)
+Example C01_example_run_test_first :
+  wf_shape (good_shape false false) = true /\
+  let res := loader (good_shape false false) [ex_strat] ex_rejhdr (mkConfig (Some 2) true false 2 false) ex_pairs in
+  res_crashed res = false /\ res_processed res = 2 /\ res_yields res = [1]
+  /\ map lab (file_events (res_trace res) false [] 0) = [(1, 0)]%nat
+  /\ res_processed (loader (good_shape false false) [ex_strat] ex_rejhdr (mkConfig (Some 0) true false 2 false) ex_pairs) = 0
+  /\ res_processed (loader repaired_shape [ex_strat] ex_rejhdr (mkConfig (Some 0) true false 2 false) ex_pairs) = 1.
+Proof. exact ex_run_test_first. Qed.
+Print Assumptions C01_example_run_test_first.
 
 Example C01_example_rejhdr_contract :
   forall r reason h, ex_rejhdr r reason = HOk h -> contains (tagRR ++ reason) h.
